@@ -334,17 +334,29 @@ func runRegistry(planPath, outPath string, seed int64) {
 				h.Ops = append(h.Ops, []string{"handle", hp})
 			}
 		}
+		livePick := func() string {
+			roots := []string{}
+			for _, q := range pool {
+				if present[q] {
+					roots = append(roots, q)
+				}
+			}
+			if len(roots) > 0 && r.Intn(4) > 0 {
+				return pick(r, roots)
+			}
+			return pick(r, pool)
+		}
 		for k := 0; k < n; k++ {
 			x := r.Intn(100)
 			switch {
-			case x < 45:
+			case x < 40:
 				root := pick(r, pool)
 				if !present[root] {
 					everRoot = everRoot || root == "/" || strings.HasPrefix(root, "/{")
 					present[root] = true
 					h.Ops = append(h.Ops, []string{"add", root})
 				}
-			case x < 70:
+			case x < 62:
 				if len(present) > 0 {
 					roots := []string{}
 					for _, q := range pool {
@@ -356,15 +368,15 @@ func runRegistry(planPath, outPath string, seed int64) {
 					delete(present, root)
 					h.Ops = append(h.Ops, []string{"remove", root})
 				}
-			case x < 80:
+			case x < 70:
 				hp := pick(r, hpool)
 				if !handled[hp] {
 					handled[hp] = true
 					h.Ops = append(h.Ops, []string{"handle", hp})
 				}
-			case x < 84:
-				h.Ops = append(h.Ops, []string{"route", pick(r, pool)})
-			case x < 86:
+			case x < 74:
+				h.Ops = append(h.Ops, []string{"route", livePick()})
+			case x < 76:
 				// a pattern that is certainly taken: handled before, or mapped by a present WebService (no
 				// WebService on "/" in this history: after one, later services register no pattern of their own)
 				cands := []string{}
@@ -383,7 +395,7 @@ func runRegistry(planPath, outPath string, seed int64) {
 				if len(cands) > 0 {
 					h.Ops = append(h.Ops, []string{"badhandle", pick(r, cands)})
 				}
-			case x < 91:
+			case x < 81:
 				// two routes on one method and path are added to a present WebService and removed again
 				cands := []string{}
 				for _, q := range []string{"/", "/a", "/ab", "/q"} {
@@ -395,13 +407,13 @@ func runRegistry(planPath, outPath string, seed int64) {
 					root := pick(r, cands)
 					h.Ops = append(h.Ops, []string{"dup", root}, []string{"undup", root})
 				}
-			case x < 93:
-				h.Ops = append(h.Ops, []string{"swap", pick(r, pool)})
-			case x < 95:
-				root := pick(r, pool)
+			case x < 89:
+				h.Ops = append(h.Ops, []string{"swap", livePick()})
+			case x < 92:
+				root := livePick()
 				h.Ops = append(h.Ops, []string{"clear", root}, []string{"route", root})
 			default:
-				h.Ops = append(h.Ops, []string{"unroute", pick(r, pool)})
+				h.Ops = append(h.Ops, []string{"unroute", livePick()})
 			}
 		}
 		runRegHistory(tw, h, pick(r, []string{"curly", "jsr311"}))
